@@ -224,7 +224,8 @@ func cGenAttempt(rng *rand.Rand, withRetry bool, allowReject bool, allowCancel b
 func TestC10(t *testing.T) {
 	r := fw.Start(t, "C10")
 	defer r.Finish()
-	bodies := []string{"nil", "nobody", "bytes", "bytes", "noget", "getfail:1", "getfail:2", "getfail:4"}
+	againPhase(t, r, "C10", r.N(1500, 30000), map[string]bool{"header": true, "body": true, "nogetbody": true, "events": true})
+	bodies := []string{"nil", "nobody", "bytes", "bytes", "closeonce", "noget", "getfail:1", "getfail:2", "getfail:4"}
 	n := r.N(6000, 120000)
 	for i := 0; i < n; i++ {
 		if !r.Mine("S", i) {
@@ -257,6 +258,7 @@ var c11Bases = []string{
 func TestC11(t *testing.T) {
 	r := fw.Start(t, "C11")
 	defer r.Finish()
+	againPhase(t, r, "C11", r.N(1500, 30000), map[string]bool{"ret": true, "attempts": true, "nogetbody": true})
 	retries := []int{-1, 1, 3}
 	idx := 0
 	// (A) every prefix of the base streams: clean EOF after every byte and a read error after every
@@ -393,6 +395,7 @@ func TestC11(t *testing.T) {
 func TestC12(t *testing.T) {
 	r := fw.Start(t, "C12")
 	defer r.Finish()
+	againPhase(t, r, "C12", r.N(1500, 30000), map[string]bool{"attempts": true, "onretry": true})
 	ms := int64(time.Millisecond)
 	inits := []int64{0, ms, 10 * ms, 500 * ms, 3 * int64(time.Second), 7}
 	mults := []float64{0, 1, 1.5, 2, 10, 0.5, 1.0000001}
